@@ -124,7 +124,7 @@ def catalogue(tier):
     chv = ["a", "", "\u00e9", "p" * 100, Y(b"a"), Y(b"\xff"), {"$": "digest"}, {"$": "digest-other"}]
     cat.append(("Challenge", [{"hash_algorithm": a, **r} for a in algs + ["SHA256"] for r in ({}, {"required": True})], chv + WRONG))
     secv = ["secret", "s", "\u00e9\u00e8", "x" * 40, "with \"quotes\" & <xml>", "a\nb"]
-    cat.append(("Secure", [{"method": m} for m in ("aes", "xor", "best")], secv + [None]))
+    cat.append(("Secure", [{"method": m} for m in ("aes", "xor", "best")], secv + WRONG))
     lv = ["debug", "INFO", " Warning ", "error", "critical", "trace", "", "warn", "notice", " NOTICE "]
     cat.append(("LogLevel", [{}, {"levels": ["notice", "warn"]}, {"transform_case": "upper", "levels": ["NOTICE"]},
                              {"transform_strip": False}, {"required": True}], lv + WRONG))
